@@ -111,6 +111,7 @@ def run(F, rep):
                        "the LZ encoder is applied to sequences over the symbol domain produced by the FASTA reader"]
     alpha_rules(F, rep, "C09")
     back_rules(F, rep)
+    pred_rules(F, rep)
 
 
 def back_rules(F, rep, pid="C09"):
@@ -210,6 +211,144 @@ def back_rules(F, rep, pid="C09"):
                 guards.append(fmt(e))
     rep.ob(R, "the matcher's backward scan is bounded by its budget parameter", bool(guards), detail="guards: %s" % guards[:2],
            site="%s:%d" % (fm.file, fm.line_lo), key=R + " | matcher honours budget")
+
+
+def pred_rules(F, rep, pid="C09"):
+    """C09-PRED: encoder and decoder keep the same `predicted reference position`.  Match positions are coded
+    relative to it and the '!' literal is decoded by looking it up, so both sides must move it identically:
+    +1 per literal, unchanged by an N-run, set to (match position + match length) after a match; the encoder
+    takes back one per literal it removes in a backward extension."""
+    R = pid + "-PRED"
+    from mirutil import local_updates
+    enc, dec = F.funcs.get(LZ + "encode"), F.funcs.get(LZ + "decode")
+    em, dm = F.funcs.get(LZ + "encode_match"), F.funcs.get(LZ + "decode_match")
+    el, en = F.funcs.get(LZ + "encode_literal"), F.funcs.get(LZ + "encode_nrun")
+    fm = F.funcs.get(LZ + "find_best_match_lp")
+    if not rep.floor(R, sum(1 for x in (enc, dec, em, dm, el, en, fm) if x), 7, "encode, decode and their helpers"):
+        return
+    # ---------------------------------------------------------------- encoder
+    ex = Exprs(enc)
+    g = cfg_of(enc)
+    msite = [(bi, t) for bi, t in enc.calls() if not t.get("indirect") and t["callee"] == em.key]
+    fsite = [(bi, t) for bi, t in enc.calls() if not t.get("indirect") and t["callee"] == fm.key]
+    if not rep.floor(R, len(msite), 1, "encode_match call in encode") or not fsite:
+        return
+    mb, mt = msite[0]
+    pidx = [i for i, n in enumerate(em.arg_names().values()) if "pred" in (n or "")] or [3]
+    P = strip_tags(ex.operand(mt["args"][pidx[0]]))
+    okp = isinstance(P, tuple) and P[0] == "var"
+    rep.ob(R, "the encoder's predicted position is a local of encode handed to encode_match", okp, detail=fmt(P), key=R + " | encoder predictor")
+    if not okp:
+        return
+    ups = [(bi, strip_tags(e), er) for nm, bi, e, er in local_updates(enc, ex) if nm == P[1]]
+    loops = g.loops()
+    main = min([body for h, body in loops if fsite[0][0] in body], key=len, default=set())
+    lits = [bi for bi, t in enc.calls() if not t.get("indirect") and t["callee"] == el.key and bi in main]
+    nruns = [bi for bi, t in enc.calls() if not t.get("indirect") and t["callee"] == en.key and bi in main]
+    incs = [bi for bi, e, er in ups if er == ("bin", "Add", ("const", 1), ("self",))]
+    # every literal of the main loop is followed by exactly one +1 in its iteration; no +1 without a literal
+    def same_iter_after(a, b):      # b is executed after a in the same iteration
+        return g.dominates(a, b) and a in main and b in main
+    ok_l = bool(lits) and all(sum(1 for i in incs if same_iter_after(l, i)) == 1 for l in lits) and all(any(same_iter_after(l, i) for l in lits) for i in incs)
+    rep.ob(R, "encoder: every literal moves the predicted position by one (and nothing else does)", ok_l,
+           detail="%d literal sites in the matching loop, %d increments" % (len(lits), len(incs)), site="%s:%d" % (enc.file, enc.line_lo), key=R + " | encoder literal step")
+    ok_n = bool(nruns) and not any(same_iter_after(n, bi) for n in nruns for bi, e, er in ups)
+    rep.ob(R, "encoder: an N-run leaves the predicted position unchanged", ok_n, site="%s:%d" % (enc.file, enc.line_lo), key=R + " | encoder nrun")
+    # after the match: P = (position handed to encode_match) + (backward + forward length), and the target index moves by the same length
+    pos_arg = strip_tags(ex.operand(mt["args"][1]))
+    after = [(bi, e) for bi, e, er in ups if g.dominates(mb, bi) and bi in main]
+    fmres = lambda x: isinstance(x, tuple) and x[0] == "call" and x[1] == fm.key
+    ok_m = len(after) == 1
+    det = "updates after encode_match: %s" % [fmt(e)[:80] for _, e in after]
+    if ok_m:
+        e = after[0][1]
+        ok_m = isinstance(e, tuple) and e[0] == "bin" and e[1] == "Add"
+        if ok_m:
+            parts = _flatten_add(e)
+            rest = list(parts)
+            pa = _flatten_add(pos_arg) if isinstance(pos_arg, tuple) and pos_arg[0] == "bin" and pos_arg[1] == "Add" else [pos_arg]
+            # position argument is (match_pos - len_bck); the new prediction adds len_bck + len_fwd to it
+            ok_m = _contains_all(rest, [pos_arg]) and sum(1 for x in rest if contains(x, fmres)) >= 3
+    rep.ob(R, "encoder: after a match the predicted position is the coded position plus the whole match length", ok_m, detail=det,
+           site=site_of(enc, mt), key=R + " | encoder match step")
+    # backward extension: one step back per removed literal
+    subs = [(bi, e) for bi, e, er in ups if isinstance(er, tuple) and er[0] == "bin" and er[1] == "Sub" and er[2] == ("self",)]
+    pops = [bi for bi, t in enc.calls() if not t.get("indirect") and t["callee"].endswith("Vec::<T, A>::pop")]
+    fl = for_loops(enc, ex)
+    ok_b = len(subs) == 1 and bool(pops)
+    if ok_b:
+        L = [x for x in fl if pops[0] in x["body"] and x["range"]]
+        ok_b = bool(L) and strip_tags(L[0]["range"][1]) == subs[0][1][3]
+    rep.ob(R, "encoder: a backward extension takes the predicted position back by the number of literals it removes", ok_b,
+           detail="subtractions: %s" % [fmt(e)[:80] for _, e in subs], key=R + " | encoder backward step")
+    other = [fmt(e)[:60] for bi, e, er in ups if er not in (("const", 0), ("bin", "Add", ("const", 1), ("self",))) and (bi, e) not in after and (bi, e) not in subs]
+    rep.ob(R, "encoder: no other update of the predicted position", not other, detail=str(other), key=R + " | encoder other updates")
+    # ---------------------------------------------------------------- decoder
+    exd = Exprs(dec)
+    gd = cfg_of(dec)
+    dsite = [(bi, t) for bi, t in dec.calls() if not t.get("indirect") and t["callee"] == dm.key]
+    if not rep.floor(R, len(dsite), 1, "decode_match call in decode"):
+        return
+    db, dt = dsite[0]
+    Pd = strip_tags(exd.operand(dt["args"][-1]))
+    okd = isinstance(Pd, tuple) and Pd[0] == "var"
+    rep.ob(R, "the decoder's predicted position is a local of decode handed to decode_match", okd, detail=fmt(Pd), key=R + " | decoder predictor")
+    if not okd:
+        return
+    dups = [(bi, strip_tags(e), er) for nm, bi, e, er in local_updates(dec, exd) if nm == Pd[1]]
+    isl = F.funcs.get(LZ + "is_literal")
+    dn = F.funcs.get(LZ + "decode_nrun")
+
+    def arm_of(bi):
+        cs = [(strip_tags(c[0]), cond_bool(c[1], c[2])) for c in dominating_conds(dec, bi, exd)]
+        lit = [v for c, v in cs if isinstance(c, tuple) and c[0] == "call" and isl and c[1] == isl.key]
+        if lit and lit[-1] is True:
+            return "literal"
+        if any(t2["callee"] == dn.key and gd.dominates(b2, bi) for b2, t2 in dec.calls() if not t2.get("indirect")) and dn:
+            return "nrun"
+        if gd.dominates(db, bi):
+            return "match"
+        return "other"
+    byarm = {}
+    for bi, e, er in dups:
+        if er == ("const", 0) and not any(bi in body for h, body in gd.loops()):
+            continue
+        byarm.setdefault(arm_of(bi), []).append((e, er))
+    rep.ob(R, "decoder: a literal moves the predicted position by one", [er for e, er in byarm.get("literal", [])] == [("bin", "Add", ("const", 1), ("self",))],
+           detail=str([fmt(e) for e, er in byarm.get("literal", [])]), key=R + " | decoder literal step")
+    rep.ob(R, "decoder: an N-run leaves the predicted position unchanged", not byarm.get("nrun"), detail=str([fmt(e) for e, er in byarm.get("nrun", [])]),
+           key=R + " | decoder nrun")
+    # match: P = end of the copied reference range
+    ends = []
+    for bi, t in dec.calls():
+        if not t.get("indirect") and t["callee"].endswith("extend_from_slice") and gd.dominates(db, bi):
+            for x in walk(strip_tags(exd.operand(t["args"][1]))):
+                if isinstance(x, tuple) and x[0] == "agg" and x[1].startswith("core::ops::range::Range"):
+                    d = dict(x[2])
+                    if "end" in d:
+                        ends.append(d["end"])
+    mups = [e for e, er in byarm.get("match", [])]
+    rep.ob(R, "decoder: after a match the predicted position is the end of the reference range that was copied", len(mups) == 1 and len(ends) == 1 and mups[0] == ends[0],
+           detail="update %s; copied range ends at %s" % ([fmt(e)[:80] for e in mups], [fmt(e)[:80] for e in ends]), site=site_of(dec, dt), key=R + " | decoder match step")
+    rep.ob(R, "decoder: no other update of the predicted position", not byarm.get("other"), detail=str([fmt(e)[:60] for e, er in byarm.get("other", [])]),
+           key=R + " | decoder other updates")
+
+
+def _flatten_add(e):
+    if isinstance(e, tuple) and e[0] == "bin" and e[1] == "Add":
+        return _flatten_add(e[2]) + _flatten_add(e[3])
+    return [e]
+
+
+def _contains_all(parts, needed):
+    """every element of `needed` occurs among `parts`, possibly split into its own summands"""
+    rest = list(parts)
+    for n in needed:
+        if n in rest:
+            rest.remove(n)
+            continue
+        return False
+    return True
 
 
 def _reaches_without(g, a, b, avoid):
